@@ -569,6 +569,58 @@ def r9_despawn_supersedes(ctx):
                   "removals forgotten on despawn" if purged else "removals of every entity in the despawn buffer are forgotten" if swept else "removal writer filters despawned entities")
 
 
+DEF = "bevy_replicon::shared::replication::deferred_entity::DeferredEntity"
+
+
+def r10_reserved_entities_materialised(ctx):
+    """Entity mapping inside a component may *reserve* a client entity (ClientReceiveCtx::get_mapped -> reserve_entity) and enter it into
+    the entity map; the entity exists in the world only after `World::flush`. The next record of the same message looks the entity up
+    (`world.get_entity_mut`) and fails otherwise, dropping the rest of the update message. Hence: every per-entity record handler ends
+    in `DeferredEntity::flush` on every non-error path, and that flush always reaches `World::flush`."""
+    F = ctx.F
+    fl = ctx.fn("deferred_entity::DeferredEntity::<'w>::flush") if F.find("deferred_entity::DeferredEntity::<'w>::flush") else ctx.fn("DeferredEntity::<'w>::flush")
+    wf = [bb for bb, t in fl.calls() if callee_decl(t).endswith("World::flush")]
+    if ctx.check(len(wf) >= 1, "DeferredEntity::flush/flushes-world", site_of(fl), "DeferredEntity::flush does not call World::flush"):
+        rets = fl.exits()
+        skipping = [r for r in rets if fl.reachable_avoiding(r, (), removed_blocks=tuple(wf))]
+        ctx.check(not skipping, "DeferredEntity::flush/flushes-world-unconditionally", site_of(fl, wf[0]),
+                  "DeferredEntity::flush can return without World::flush: an entity reserved by entity mapping while a component was deserialised in place is in the "
+                  "entity map but not in the world; its own record later in the same update message fails and the rest of the message is dropped")
+        ap = [bb for bb, t in fl.calls() if callee_decl(t).endswith("DeferredChanges::apply")]
+        ctx.check(bool(ap) and all(fl.dominates(w, a) for w in wf for a in ap), "DeferredEntity::flush/world-flushed-before-changes", site_of(fl), "buffered changes are applied before the world is flushed")
+    n = 0
+    for name in ("client::apply_changes", "client::apply_removals", "client::apply_mutations"):
+        b = ctx.fn(name)
+        fs = [bb for bb, t in b.calls() if callee_decl(t) == fl.path]
+        uses = [bb for bb, t in b.calls() if callee_decl(t).endswith("DeferredEntity::<'w>::new")]
+        if not uses:
+            continue
+        n += 1
+        ok = bool(fs)
+        def _cw(t):
+            return callee_decl(t).rsplit("::", 1)[-1] in ("write", "consume_or_write", "remove") and "ComponentFns" in callee_decl(t)
+        writes = [bb for bb, t in b.calls() if _cw(t)]
+        # ... or inside a closure handed to a call of this function (apply_array(|message| { .. component_fns.write(..) .. }))
+        for cbody in F.closures_of(b.path):
+            if any(_cw(t) for _, t in cbody.calls()):
+                for bb, t in b.calls():
+                    for a_ in t.get("args", []):
+                        for (k, d_) in dep_closure(b, a_):
+                            if k == "stmt":
+                                rv = b.blocks[d_[0]].stmts[d_[1]]["rvalue"]
+                                if rv["rv"] == "agg" and rv["kind"] == "closure" and rv["closure"] == cbody.path and bb not in writes:
+                                    writes.append(bb)
+        if ok:
+            res = [bb for bb, t in b.calls() if callee_decl(t).endswith("FromResidual::from_residual")]
+            for w in writes:
+                for e in b.exits():
+                    if b.reachable_avoiding(e, (), start=w, removed_blocks=tuple(fs + res)):
+                        ok = False
+        ctx.check(ok and bool(writes), "%s/flushes-its-entity" % short(name), site_of(b),
+                  "after (de)serialising a component into the entity the record handler can finish without an error and without flushing it (%d component call(s), %d flush call(s))" % (len(writes), len(fs)))
+    ctx.check(n >= 3, "record-handlers", "", "only %d record handlers use DeferredEntity" % n)
+
+
 from rules.first_sight import r_first_sight
 
 RULES = [
@@ -581,5 +633,6 @@ RULES = [
     ("C03.R7", "first-sight completeness: a client that does not hold an entity yet (just authorized, just spawned, visibility gained) is sent every replicated component", r_first_sight, 14, ["default", "all-features", "server-only"]),
     ("C03.R8", "recycled buffers of the replication path are empty when reused (no records of an earlier tick or entity in a message)", r8_recycled_buffers, 6, ["default", "all-features", "server-only"]),
     ("C03.R9", "a despawn supersedes removal records buffered earlier in the tick window (no zombie re-created by a removal after the despawn)", r9_despawn_supersedes, 2, ["default", "all-features", "server-only"]),
+    ("C03.R10", "entities reserved by entity mapping are materialised before the next record (handlers end in DeferredEntity::flush, which always flushes the world)", r10_reserved_entities_materialised, 6, ["default", "all-features", "client-only"]),
 ]
 THOROUGH_CONFIGS = ["default", "all-features", "server-only", "client-only"]
